@@ -33,6 +33,8 @@ type nameCase struct {
 	// and whether the handler's message already holds strings when RecvMsg is called
 	Transport string `json:"transport,omitempty"`
 	Prefilled bool   `json:"handler_message_prefilled,omitempty"`
+	// unary interceptor only: a second IfAbsentUnaryInterceptor(Inner) chained behind the first
+	Inner *string `json:"inner_default,omitempty"`
 }
 
 func fieldTok(m protoreflect.Message, fd protoreflect.FieldDescriptor) string {
@@ -157,10 +159,17 @@ func runNameCase(c nameCase) (string, string, proto.Message, proto.Message, erro
 		return in, msgTok(seen) + " err=" + etok, before, seen, nil
 	} else {
 		ic := namemw.IfAbsentUnaryInterceptor(c.Default)
-		_, err = ic(context.Background(), req, &grpc.UnaryServerInfo{}, func(ctx context.Context, r any) (any, error) {
+		handler := func(ctx context.Context, r any) (any, error) {
 			seen, _ = r.(proto.Message)
 			return nil, nil
-		})
+		}
+		if c.Inner != nil {
+			// as grpc.ChainUnaryInterceptor(outer, inner) calls them: the outer one's handler is the inner interceptor
+			in = fmt.Sprintf("namechain %s %s %s", escTok(c.Default), escTok(*c.Inner), msgTok(req))
+			last, ic2 := handler, namemw.IfAbsentUnaryInterceptor(*c.Inner)
+			handler = func(ctx context.Context, r any) (any, error) { return ic2(ctx, r, &grpc.UnaryServerInfo{}, last) }
+		}
+		_, err = ic(context.Background(), req, &grpc.UnaryServerInfo{}, handler)
 	}
 	if err != nil || seen == nil {
 		return in, fmt.Sprintf("error:%v", err), before, nil, nil
@@ -185,6 +194,9 @@ func monitorName(mon *lib.Monitor, c nameCase, before, after proto.Message) {
 	}
 	if nameIsEmpty(want) {
 		setName(want, c.Default)
+	}
+	if c.Inner != nil && nameIsEmpty(want) {
+		setName(want, *c.Inner)
 	}
 	if !proto.Equal(want, after) {
 		class := "other-field-changed"
@@ -219,8 +231,8 @@ func randName(rng interface{ Intn(int) int }) string {
 }
 
 func runName(f lib.Flags, res *lib.Result, drv *lib.Driver) {
-	tie := res.Tie("default-name", "K1", "name.IfAbsentUnaryInterceptor and IfAbsentStreamInterceptor on every request message type of every routed service, plus every message in the compiled descriptors that has no `name` field or a non-string / repeated one (up to 40), x name in {empty, ordinary, random, whitespace-only (space, tab, newline, mixed, NBSP, EM SPACE), leading/trailing blanks, case variants, containing / or NUL, non-ASCII, 5000 characters} x default in {empty, non-empty, blank} x random other content; the message the handler sees, field by field (strings through an injective escaping, other fields by a hash of their encoding), compared with the Lean replaceEmptyName; distinct = (message type, name empty?, default empty?, interceptor kind)")
-	mon := res.Monitor("default-name", "the handler sees the request with name = default iff it was empty, proto.Equal otherwise")
+	tie := res.Tie("default-name", "K1", "name.IfAbsentUnaryInterceptor and IfAbsentStreamInterceptor on every request message type of every routed service, plus every message in the compiled descriptors that has no `name` field or a non-string / repeated one (up to 40), x name in {empty, ordinary, random, whitespace-only (space, tab, newline, mixed, NBSP, EM SPACE), leading/trailing blanks, case variants, containing / or NUL, non-ASCII, 5000 characters} x default in {empty, non-empty, blank} x random other content; the message the handler sees, field by field (strings through an injective escaping, other fields by a hash of their encoding), compared with the Lean replaceEmptyName; the stream interceptor's RecvMsg over a transport that merges into the handler's message (pkg/wrap), overwrites it (grpc codec), fails, or overwrites and fails, the handler's message fresh or already holding strings, compared with the Lean wrappedRecv (message and error); two chained unary interceptors (inner default non-empty / empty / blank) compared with the composition; distinct = (message type, name empty?, default empty?, interceptor kind, transport, pre-filled?, chained?)")
+	mon := res.Monitor("default-name", "the handler sees what the transport delivered (unary: the request; stream: the wire message written over / merged into the handler's message) with name = default iff it was empty, proto.Equal otherwise; chained interceptors: the first non-empty default; after a failing RecvMsg the message is left as the transport left it")
 	rng := lib.NewRand(f.Seed + 3)
 	types := map[string]bool{}
 	for _, e := range tables {
@@ -272,16 +284,18 @@ func runName(f lib.Flags, res *lib.Result, drv *lib.Driver) {
 					stream    bool
 					transport string
 					prefilled bool
+					inner     *string
 				}
+				inner := []string{"inner", "", " "}[combo%3]
 				k := combo // alternates per (message type, name, default) combination
 				combo++
 				// the stream interceptor over a merging, an overwriting and a failing transport, the handler's
 				// message fresh or already holding strings (alternating)
-				variants := []variant{{false, "", false}, {true, "mg", k%2 == 1}, {true, "ow", k%2 == 0}, {true, []string{"f14", "of14"}[k/2%2], k%4 == 0}}
+				variants := []variant{{false, "", false, nil}, {true, "mg", k%2 == 1, nil}, {true, "ow", k%2 == 0, nil}, {true, []string{"f14", "of14"}[k/2%2], k%4 == 0, nil}, {false, "", false, &inner}}
 				for _, v := range variants {
 					st := v.stream
 					for r := 0; r < reps; r++ {
-						c := nameCase{"name", t, d, nm, st, rng.Int63() >> 12, v.transport, v.prefilled}
+						c := nameCase{"name", t, d, nm, st, rng.Int63() >> 12, v.transport, v.prefilled, v.inner}
 						var in, out string
 						var before, after proto.Message
 						var err error
@@ -295,7 +309,7 @@ func runName(f lib.Flags, res *lib.Result, drv *lib.Driver) {
 						} else {
 							monitorName(mon, c, before, after)
 						}
-						mon.Eval(fmt.Sprintf("%s/%s/%s/%v/%s/%v", t, nm, d, st, v.transport, v.prefilled), true, nil)
+						mon.Eval(fmt.Sprintf("%s/%s/%s/%v/%s/%v/%v", t, nm, d, st, v.transport, v.prefilled, v.inner != nil), true, nil)
 						cases = append(cases, c)
 						answers = append(answers, out)
 						lines = append(lines, in)
@@ -310,7 +324,10 @@ func runName(f lib.Flags, res *lib.Result, drv *lib.Driver) {
 		return
 	}
 	for i, c := range cases {
-		tie.Record(fmt.Sprintf("%s/%s/%s/%v/%s/%v", c.Message, c.Name, c.Default, c.Stream, c.Transport, c.Prefilled), true, c, ans[i], answers[i])
+		tie.Record(fmt.Sprintf("%s/%s/%s/%v/%s/%v/%v", c.Message, c.Name, c.Default, c.Stream, c.Transport, c.Prefilled, c.Inner != nil), true, c, ans[i], answers[i])
+		if c.Inner != nil {
+			tie.Count("two chained unary interceptors")
+		}
 		if c.Stream {
 			tie.Count("stream-interceptor transport=" + strings.TrimRight(c.Transport, "0123456789") + " prefilled=" + fmt.Sprint(c.Prefilled))
 		}
